@@ -77,6 +77,11 @@ def field_updates(fn, field):
             # through `self` directly or through the `&mut self` handed to a spliced helper
             if fl == [field] and (s["p"]["l"] == 1 or is_param(sym_through(sy.local(s["p"]["l"])), 0)):
                 out.append((i, strip_sym(sy.rvalue(s["rv"], 0, frozenset()))))
+            elif not fl and s["p"]["pr"] == ["*"] and s["p"]["l"] > fn.body.argc:
+                # through a `&mut self.<field>` bound by destructuring (`let Histogram { sum, count, .. } = self; *sum += x`)
+                tgt = strip_sym(sy.local(s["p"]["l"]))
+                if isinstance(tgt, tuple) and len(tgt) >= 3 and tgt[0] == "field" and tgt[2] == field and is_param(strip_sym(tgt[1]), 0):
+                    out.append((i, strip_sym(sy.rvalue(s["rv"], 0, frozenset()))))
     return out
 
 
